@@ -14,7 +14,7 @@ def check_record(rec):
         return ("ser.%s.json" % kind, "serialisation is not valid JSON", {"error": str(e)})
     try:
         if kind == "bdd":
-            got = ddjson.bdd_truth_table(doc, rec["n"])
+            got = ddjson.bdd_truth_table(doc, rec["n"], rec.get("label_of_variable"))
             if len(got) != 1:
                 return ("ser.bdd.roots", "expected exactly one root", {"roots": len(got)})
             if not ddjson.bdd_check_postorder(doc):
@@ -23,7 +23,7 @@ def check_record(rec):
                 return ("ser.bdd.function", "BDD JSON read as a node table with complement flags denotes a different function",
                         {"json": rec["json"], "expected_bits": rec["expected"]})
         elif kind == "sdd":
-            got = ddjson.sdd_truth_table(doc, rec["n"])
+            got = ddjson.sdd_truth_table(doc, rec["n"], rec.get("label_of_variable"))
             if len(got) != 1:
                 return ("ser.sdd.roots", "expected exactly one root", {"roots": len(got)})
             if got[0] != ddjson.bits_to_int(rec["expected"]):
